@@ -414,7 +414,15 @@ func c12Judge(cfg c12Cfg, r *c12Result, constant string) (string, string) {
 			for i := 0; i+1 < len(seen); i++ {
 				a, b := seen[i], seen[i+1]
 				if prio(a) < prio(b) {
-					return "routing-priority-order", fmt.Sprintf("hosts were tried in order %v: %s (priority %d) before %s (priority %d); documented order is highest priority first: %v", seen, a, prio(a), b, prio(b), c12Expected(cfg))
+					// the recorded finding is "lowest priority first" (the comparison is the wrong way
+					// round, pinned by the repository's own test); any other wrong order is something else
+					key := "routing-priority-order ascending"
+					for j := 0; j+1 < len(seen); j++ {
+						if prio(seen[j]) > prio(seen[j+1]) {
+							key = "routing-priority-order"
+						}
+					}
+					return key, fmt.Sprintf("hosts were tried in order %v: %s (priority %d) before %s (priority %d); documented order is highest priority first: %v", seen, a, prio(a), b, prio(b), c12Expected(cfg))
 				}
 				if prio(a) == prio(b) && a == "up.example" {
 					return "routing-upstream-not-last", fmt.Sprintf("the named registry was tried before mirror %s of equal priority: %v", b, seen)
